@@ -159,6 +159,9 @@ class LevelLimit(TreeLevelCandidatesFilter):
         for level in range(len(tree.levels[:-1])):
             level_demes = [deme for deme in candidates.keys() if deme.level == level]
             level_candidates = [candidate for deme in level_demes for candidate in candidates[deme].individuals]
+            if not level_candidates:
+                # Nothing to choose from (there is no cutoff candidate on an over-full level either).
+                continue
             # Best first in the problem's own direction (Individual ordering is direction-aware).
             level_candidates.sort(reverse=True)
             currently_active_level_below = len([deme for deme in tree.levels[level + 1] if deme.is_active])
